@@ -79,7 +79,7 @@ theorem C04_searchArray_spec (ns need : Nat) (hns0 : 0 < ns) (hns : ns < need) (
     s + len ≤ full.length ∧ 2 ≤ len ∧ len = ceilNodes need ns ∧
     ∃ a, full[s]? = some a ∧ (full.drop s).take len = blockNodes a ns len ∧
       full = full.take s ++ blockNodes a ns len ++ full.drop (s + len) := by
-  obtain ⟨a, pfx, sfx, hr⟩ := searchArray_spec ns need hns full s len h
+  obtain ⟨a, pfx, sfx, hr⟩ := searchArray_specL ns need hns full s len h
   have hb := searchArray_bounds ns need hns full s len h
   have hlen := run_len_eq_ceilNodes ns need len hns0 hr.enough hr.tight
   refine ⟨hb.1, hr.two, hlen, a, ?_, ?_, ?_⟩
